@@ -310,9 +310,9 @@ func partBudgets(c *kit.Ctx) {
 		}
 	}
 	// random budget lists
-	nRand := 250
+	nRand := 400
 	if c.Thorough() {
-		nRand = 4000
+		nRand = 3000
 	}
 	for i := 0; i < nRand; i++ {
 		r := c.Rand.Fork()
